@@ -136,9 +136,14 @@ func TestVerifC14(t *testing.T) {
 		rec(nil)
 	}
 	// 2. random lists of 0..5
+	// bound 0 comes last: a change that makes the recursion unbounded there kills the process (a stack overflow cannot be
+	// recovered), and everything written before is still judged
 	n := verifh.Pick(30000, 400000)
 	for i := 0; i < n; i++ {
-		b := bounds[rnd.Intn(len(bounds))]
+		b := bounds[1+rnd.Intn(len(bounds)-1)]
+		if i >= n-n/8 {
+			b = 0
+		}
 		lags := lagsFor(b)
 		ln := rnd.Intn(6)
 		ps := make([]nodePosition, ln)
